@@ -53,10 +53,13 @@ func (c *Completer) Init() {
 }
 
 func setHook(p *slip.Package, key string) {
-	if p == &Pkg ||
-		strings.HasPrefix(key, "*print-") ||
-		key == "*bag-time-format*" ||
-		key == "*bag-time-wrap*" {
+	// The hook is also called with the package qualified name which must
+	// not be saved as well, it is not a variable of the user package.
+	if !strings.Contains(key, ":") &&
+		(p == &Pkg ||
+			strings.HasPrefix(key, "*print-") ||
+			key == "*bag-time-format*" ||
+			key == "*bag-time-wrap*") {
 		modifiedVars[key] = true
 		updateConfigFile()
 	}
